@@ -120,6 +120,9 @@ def _flag(ctx: Ctx, c: Collector) -> None:
             uses_term = any(x[0] == "attr" and x[2] == "_debug" and x[1] == T.var("self") for x in T.subterms(e.term))
             if fi.qualname == "mosaik.scenario.World.__init__":
                 continue
+            # display only: the flag shown in a repr / str or a log line selects nothing
+            if fi.name in ("__repr__", "__str__") or (e.kind == "call" and T.show(e.term[1]).startswith(("logger.", "warnings.warn"))) or (uses_term and not uses_guard and e.term[0] == "fstr"):
+                continue
             if uses_guard:
                 okg = e.kind == "call" and (e.term[1] in (T.glob(DBG + ".enable"), T.glob(DBG + ".disable"), ("attr", T.glob(DBG), "enable"), ("attr", T.glob(DBG), "disable")))
                 if not okg:
